@@ -10,18 +10,18 @@ From OxiVerif Require Import Num.Natural.
 Import ListNotations.
 Local Open Scope N_scope.
 
-Arguments N.add : simpl never.
-Arguments N.sub : simpl never.
-Arguments N.mul : simpl never.
-Arguments N.div : simpl never.
-Arguments N.modulo : simpl never.
-Arguments N.pow : simpl never.
-Arguments N.min : simpl never.
-Arguments N.max : simpl never.
-Arguments N.shiftl : simpl never.
-Arguments N.shiftr : simpl never.
-Arguments N.lor : simpl never.
-Arguments N.size : simpl never.
+#[local] Arguments N.add : simpl never.
+#[local] Arguments N.sub : simpl never.
+#[local] Arguments N.mul : simpl never.
+#[local] Arguments N.div : simpl never.
+#[local] Arguments N.modulo : simpl never.
+#[local] Arguments N.pow : simpl never.
+#[local] Arguments N.min : simpl never.
+#[local] Arguments N.max : simpl never.
+#[local] Arguments N.shiftl : simpl never.
+#[local] Arguments N.shiftr : simpl never.
+#[local] Arguments N.lor : simpl never.
+#[local] Arguments N.size : simpl never.
 
 (** ** Powers of two *)
 
